@@ -28,3 +28,7 @@ Lemma T_C08_src_mb_bitset : src_mb_bitset =
   "{ if i >= bm.len() { panic(""bitMap: index out of bounds"") } if v { bm.buf[i/8] |= mask(i) } else { bm.buf[i/8] &= maskInverse(i) } }"%string.
 Proof. reflexivity. Qed.
 
+(* p2pke parseInitHello (Chk.parse_init_hello_chk) *)
+Lemma T_C08_src_ke_parse_ih : src_ke_parse_ih =
+  "{ if len(body) < 2 { return nil, errors.New(""InitHello missing length"") } l := int(binary.BigEndian.Uint16(body[len(body)-2:])) start := len(body) - 2 - l if start < 0 { return nil, errors.New(""InitHello has invalid length"") } data := body[start : len(body)-2] x := &InitHello{} if err := unmarshal(data, x); err != nil { return nil, err } return x, nil }"%string.
+Proof. reflexivity. Qed.
